@@ -2,6 +2,7 @@
 from __future__ import annotations
 
 import ast
+import os
 
 import z3
 
@@ -39,6 +40,41 @@ def _free_consts(e):
     return out
 
 
+_PAT_OK_KINDS = None
+
+
+def _pattern_ok(t, var) -> bool:
+    """t may be used inside a quantifier pattern: built from uninterpreted symbols, selects and datatype accessors/constructors only."""
+    global _PAT_OK_KINDS
+    if _PAT_OK_KINDS is None:
+        _PAT_OK_KINDS = {z3.Z3_OP_UNINTERPRETED, z3.Z3_OP_SELECT, z3.Z3_OP_DT_ACCESSOR, z3.Z3_OP_DT_CONSTRUCTOR}
+    stack = [t]
+    while stack:
+        x = stack.pop()
+        if x.eq(var):
+            continue
+        if not z3.is_app(x) or x.decl().kind() not in _PAT_OK_KINDS:
+            return False
+        stack.extend(x.children())
+    return True
+
+
+def select_patterns(term, var, limit=3) -> list:
+    """Sub-terms `Select(a, var)` of term usable as (alternative) triggers for a quantifier over var."""
+    out, seen, stack = [], set(), [term]
+    while stack and len(out) < limit:
+        x = stack.pop()
+        if x.get_id() in seen or z3.is_quantifier(x) or not z3.is_app(x):
+            continue
+        seen.add(x.get_id())
+        if x.decl().kind() == z3.Z3_OP_SELECT and x.arg(1).eq(var) and not any(c.eq(var) for c in _free_consts(x.arg(0))) and _pattern_ok(x.arg(0), var):
+            if not any(o.eq(x) for o in out):
+                out.append(x)
+            continue
+        stack.extend(x.children())
+    return out
+
+
 class CallMixin(ExprMixin):
 
     # ------------------------------------------------------------------ dispatch
@@ -49,6 +85,14 @@ class CallMixin(ExprMixin):
         return ast.unparse(n.func)
 
     def eval_call(self, n: ast.Call, awaited: bool) -> V:
+        r = self._eval_call(n, awaited)
+        if self.C is not None and not self.spec_mode and self.C.callsites:
+            cs = self.C.callsites.get(ast.unparse(n)) or self.C.callsites.get(self.call_text(n))
+            if cs is not None and cs.get('post') is not None and not (cs.get('awaited_only', True) and not awaited and r.ty.kind == 'py'):
+                cs['post'](self, n, r)       # ghost bookkeeping after the call has returned normally
+        return r
+
+    def _eval_call(self, n: ast.Call, awaited: bool) -> V:
         text = self.call_text(n)
         full = ast.unparse(n)
         if text in DROPPED_CALLS:
@@ -193,6 +237,35 @@ class CallMixin(ExprMixin):
         finally:
             self.st.env = saved
 
+    def assume_lambda_semantics(self, c: V):
+        """A one-parameter lambda handed to a callee as a predicate object c: forall x. holds(c, x) == <its body at x> (when the body is a
+        pure expression of the contract language; otherwise nothing is assumed and the callee sees an uninterpreted predicate)."""
+        holds = self.spec.specfuns.get('holds')
+        node = c.py[1]
+        if holds is None or len(node.args.args) != 1:
+            return
+        x = z3.Const(fresh_name('lx'), Ref)
+        xv = V(ANY, x)
+        n_pc = len(self.st.pc)
+        if getattr(self, 'qbound', None) is None:
+            self.qbound = []
+        if getattr(self, 'qfacts', None) is None:
+            self.qfacts = []
+        self.qbound.append([x])
+        self.qfacts.append([])
+        self.spec_mode += 1
+        try:
+            body = self.truth(self.call_lambda(c.py, [xv]))
+        except Unsupported:
+            del self.st.pc[n_pc:]
+            return
+        finally:
+            self.spec_mode -= 1
+            self.qbound.pop()
+            self.qfacts.pop()
+        del self.st.pc[n_pc:]          # side facts of the evaluation mention the bound variable: dropped
+        self.assume(z3.ForAll([x], self.truth(holds(self, V(ANY, c.term), xv)) == body))
+
     def construct(self, cls: str, n: ast.Call) -> V:
         if cls in smt.CLASSES and 'BaseException' in smt.ancestors(cls):
             # exception constructor: message arguments are not evaluated (X2)
@@ -272,6 +345,10 @@ class CallMixin(ExprMixin):
             return mk_none()
         if meth == 'extend':
             other = self.refresh(self.eval(n.args[0]))
+            if other.ty.kind == 'obj' and 'list_items' in self.spec.fields:
+                # a value of type Any that is a Python list: its elements are the heap field list_items of that object
+                self.safety('TypeError', smt.issub(smt.tag(other.term), smt.CLASSES['list']), 'extend_with_non_list')
+                other = self.read_field(other.term, 'list_items')
             if other.ty.kind != 'list':
                 raise Unsupported('extend with %r' % (other.ty,))
             if recv.ty.args[0] != other.ty.args[0]:
@@ -360,7 +437,7 @@ class CallMixin(ExprMixin):
         self.assume(z3.ForAll([i], z3.Implies(z3.And(0 <= i, i < n), z3.And(0 <= z3.Select(perm, i), z3.Select(perm, i) < n,
                                                                                   z3.Select(pinv, z3.Select(perm, i)) == i,
                                                                                   z3.Select(oel, i) == z3.Select(el, z3.Select(perm, i)))),
-                                 patterns=[z3.Select(perm, i)]))
+                                 patterns=[z3.Select(perm, i), z3.Select(oel, i)]))
         self.assume(z3.ForAll([j], z3.Implies(z3.And(0 <= j, j < n), z3.And(0 <= z3.Select(pinv, j), z3.Select(pinv, j) < n,
                                                                                   z3.Select(perm, z3.Select(pinv, j)) == j)),
                                  patterns=[z3.Select(pinv, j)]))
@@ -469,6 +546,7 @@ class CallMixin(ExprMixin):
     def call_contract(self, C: FnContract, n: ast.Call, recv: V | None, awaited: bool) -> V:
         vals = self.bind_args(C, n, recv)
         dflts = None
+        lams = []
         for p, ty in C.params.items():
             if p not in vals:
                 if dflts is None:
@@ -480,10 +558,18 @@ class CallMixin(ExprMixin):
                     vals[p] = self.eval(dflts[p])
                 finally:
                     self.st.env = saved
+            was_lambda = vals[p].ty.kind == 'py' and isinstance(vals[p].py, tuple) and vals[p].py[0] == 'lambda'
             vals[p] = coerce(vals[p], ty)
+            if was_lambda and vals[p].ty.kind == 'obj' and not self.spec_mode:
+                lams.append(vals[p])
         if C.is_async and not awaited:
             return V(PY, py=('coro', C.key, vals))
-        return self.apply_contract(C, vals)
+        r = self.apply_contract(C, vals)
+        for lam in lams:
+            # the callee's clauses speak about holds(c, x) in its exit state (it evaluates the predicate after its last suspension
+            # point): the lambda's meaning is stated on the heap as it is when the call returns
+            self.assume_lambda_semantics(lam)
+        return r
 
     def spec_eval(self, expr: str, env: dict[str, V], entry=None) -> V:
         """Evaluate a contract clause: pure, total, over `env`; old(e) refers to `entry`."""
@@ -824,9 +910,12 @@ class CallMixin(ExprMixin):
         self.assume(z3.And(0 <= m, m <= n))
         self.assume(z3.ForAll([k], z3.Implies(z3.And(0 <= k, k < m), z3.And(
             0 <= sk, sk < n, z3.substitute(cond, (j, sk)), z3.Select(oel, k) == z3.substitute(to_smt(elt), (j, sk)), z3.Select(rho, sk) == k)),
-            patterns=[z3.Select(sig, k)]))
+            patterns=[z3.Select(sig, k), z3.Select(oel, k)]))
+        # alternative triggers: a source element mentioned by the filter condition (the proof "S[j] passes the filter, so it is in the
+        # result" starts from such a term; rho[j] itself never occurs in a goal)
+        alt = select_patterns(z3.simplify(cond), j) if os.environ.get('PYVC_ALT_PATTERNS', '1') == '1' else []
         self.assume(z3.ForAll([j], z3.Implies(z3.And(0 <= j, j < n, cond), z3.And(0 <= z3.Select(rho, j), z3.Select(rho, j) < m, z3.Select(sig, z3.Select(rho, j)) == j)),
-                                 patterns=[z3.Select(rho, j)]))
+                                 patterns=[z3.Select(rho, j)] + alt))
         self.assume(z3.ForAll([k, k2], z3.Implies(z3.And(0 <= k, k < k2, k2 < m), z3.Select(sig, k) < z3.Select(sig, k2)),
                                  patterns=[z3.MultiPattern(z3.Select(sig, k), z3.Select(sig, k2))]))
         out.py = ('filtered', sig, rho, src, j, cond)
@@ -873,8 +962,9 @@ class CallMixin(ExprMixin):
         keys, cnt, has, val, idx = self.dict_parts(out)
         kk = z3.Const(fresh_name('k'), kt.sort())
         self.assume(cnt == n)
+        alt = select_patterns(z3.simplify(keyat(i)), i) if os.environ.get('PYVC_ALT_PATTERNS', '1') == '1' else []
         self.assume(z3.ForAll([i], z3.Implies(z3.And(0 <= i, i < n), z3.And(z3.Select(keys, i) == keyat(i),
                                                                                   z3.Select(val, keyat(i)) == valat(i), z3.Select(idx, keyat(i)) == i)),
-                                 patterns=[z3.Select(keys, i)]))
+                                 patterns=[z3.Select(keys, i)] + alt))
         out.py = ('from_pairs', pairs)
         return out
